@@ -268,18 +268,25 @@ class PolyOneOverXRect(PolyGenerator):
             return_scale=False,
             chebyshev_basis=False):
 
-        coefs_invert, scale1 = PolyOneOverX().generate(2 * kappa,
-                                                       epsilon,
-                                                       ensure_bounded,
-                                                       return_scale=True,
-                                                       chebyshev_basis=chebyshev_basis)
+        res_invert = PolyOneOverX().generate(2 * kappa,
+                                             epsilon,
+                                             ensure_bounded=ensure_bounded,
+                                             return_scale=True,
+                                             chebyshev_basis=chebyshev_basis)
 
-        coefs_rect, scale2 = PolyRect().generate(degree,
-                                                 delta,
-                                                 kappa,
-                                                 ensure_bounded,
-                                                 return_scale=True,
-                                                 chebyshev_basis=chebyshev_basis)
+        res_rect = PolyRect().generate(degree,
+                                       delta,
+                                       kappa,
+                                       epsilon,
+                                       ensure_bounded=ensure_bounded,
+                                       return_scale=True,
+                                       chebyshev_basis=chebyshev_basis)
+
+        # the factor generators return a scale only when they normalise
+        if ensure_bounded:
+            (coefs_invert, scale1), (coefs_rect, scale2) = res_invert, res_rect
+        else:
+            coefs_invert, coefs_rect, scale1, scale2 = res_invert, res_rect, 1., 1.
 
         poly_invert = np.polynomial.Polynomial(coefs_invert)
         poly_rect = np.polynomial.Polynomial(coefs_rect)
